@@ -23,7 +23,7 @@ EXPLANATION = (
 )
 ASSUMPTIONS = C04.ASSUMPTIONS + ["hard-kill path and cancellation of listen() are outside", "'promptly' is checked as 'within two poll periods of virtual time once nothing is left to wait for'"]
 TRUSTED = C04.TRUSTED
-REQUIRED_COVERS = ["stop_in_flight", "stop_idle", "wtt_elapsed", "never_ending", "quota_shutdown", "taken_after_stop"]
+REQUIRED_COVERS = ["mid_chain_event", "stop_in_flight", "stop_idle", "wtt_elapsed", "never_ending", "quota_shutdown", "taken_after_stop"]
 budget = C04.budget
 coverage_extra = C04.coverage_extra
 
@@ -40,6 +40,9 @@ def cases(tier: str) -> List[Any]:
     for cfg in ("plain", "quota", "wtt0", "wtt1", "wttzero", "ackfuture", "rawpayload"):
         for prefix in itertools.product(range(3), repeat=3 if tier == "quick" else 4):
             out.append({"M": M, "K": K, "cfg": cfg, "prefix": list(prefix)})
+    for cfg in ("plain", "quota", "wtt0", "ackfuture"):
+        for first in range(3):
+            out.append({"M": 2 if tier == "quick" else 3, "K": 4 if tier == "quick" else 5, "cfg": cfg, "prefix": [first], "preempt": 1 if tier == "quick" else 2})
     return out
 
 
@@ -56,9 +59,11 @@ def harness(c: sym.Ctx, case: Dict[str, Any]) -> None:
     if cfg == "rawpayload":
         kinds[1] = "malformed_raw"
     spec = {"M": M, "kinds": kinds, "outcomes": outcomes, "A": "sym", "P": P, "N": "sym" if cfg == "quota" else "none",
-            "wtt": wtt, "K": case["K"], "prefix": case["prefix"], "ack_mode": "future" if cfg == "ackfuture" else False}
+            "wtt": wtt, "K": case["K"], "prefix": case["prefix"], "ack_mode": "future" if cfg == "ackfuture" else False, "preempt": case.get("preempt", 0)}
     r = _listen.run(c, spec)
     ev = r.lab.ev
+    if any(e[0] == "preempt" for e in ev):
+        c.cover("mid_chain_event")
     n_never = outcomes.count("never")
     if n_never:
         c.cover("never_ending")
